@@ -261,6 +261,22 @@ func c04Program(r *verifrt.Rand, kind int) c04prog {
 	case 1:
 		p.Name = "colliding-names"
 		p.Names = vfCollidingNames(r, 3, 0)
+		if (kind/8)%2 == 1 {
+			// (the chain-order pattern of the driver) two short names and a long one
+			// in one bucket, and a filler that needs a page of its own
+			p.Name = "chain-order"
+			p.PreFill = 3
+			short := vfCollidingNames(r, 2, 0)
+			want := verifref.Hash(short[0])
+			long := ""
+			for k := 0; long == ""; k++ {
+				n := fmt.Sprintf("col/long/%d/", k) + strings.Repeat("L", 3000)
+				if verifref.Hash(n) == want {
+					long = n
+				}
+			}
+			p.Names = []string{short[0], short[1], long, "fill/z/" + strings.Repeat("Z", 3900)}
+		}
 	case 2:
 		p.Name = "extend-race"
 		p.PreFill = 3
@@ -648,6 +664,22 @@ func TestVerifC04(t *testing.T) {
 				}
 				r.Hit("in-place-init-pattern")
 			}
+			if p.Name == "chain-order" {
+				// the order of a hash chain is not the order of allocation: A and B reserve
+				// records in the first page and stop d1, d2 steps after that (before
+				// linking them); C grows the file and links a record of the same bucket
+				// beyond their mappings; B links; A links: A's chain is then B's record
+				// (inside its mapping) followed by C's (outside)
+				j := i / 16
+				d1, d2 := 1+j%3, 1+(j/3)%3
+				p.Procs = [][]c04op{{{Kind: "raw", Name: 0, N: 1}}, {{Kind: "raw", Name: 1, N: 2}}, {{Kind: "raw", Name: 3, N: 1}, {Kind: "raw", Name: 2, N: 3}}}
+				p.KillAt = make([]int, 3)
+				st = c03strategy{Kind: "park", Phases: []verifrt.Phase{
+					{Thread: 0, AtPt: "mappedFile.cas32:0:CompareAndSwap", Plus: d1},
+					{Thread: 1, AtPt: "mappedFile.cas32:0:CompareAndSwap", Plus: d2},
+					{Thread: 2, Until: -1}, {Thread: 1, Until: -1}, {Thread: 0, Until: -1}}}
+				r.Hit("chain-order-pattern")
+			}
 			if p.Name == "extend-race" && len(p.Names) > 10 {
 				// one process is stopped at its k-th point (all k: also between reading
 				// the allocation limit and growing the file for a small or a big record)
@@ -778,7 +810,7 @@ func TestVerifC04(t *testing.T) {
 			e.close()
 		}
 	})
-	res.Require("creator-killed-pattern", "saturating-base-written", "program:saturating", "remap-twice-pattern", "program:colliding-big", "program:same-name", "program:colliding-names", "program:extend-race", "program:page-tail", "program:concurrent-create", "program:other-program", "other-program-refused", "no-hard-links", "in-place-init-pattern", "grow-by-pages-pattern", "schedule-with-kill", "strategy:pct", "strategy:park")
+	res.Require("creator-killed-pattern", "saturating-base-written", "program:saturating", "remap-twice-pattern", "program:colliding-big", "program:same-name", "program:colliding-names", "program:extend-race", "program:page-tail", "program:concurrent-create", "program:other-program", "other-program-refused", "no-hard-links", "in-place-init-pattern", "grow-by-pages-pattern", "chain-order-pattern", "schedule-with-kill", "strategy:pct", "strategy:park")
 	if err := res.Write(); err != nil {
 		t.Fatal(err)
 	}
